@@ -150,10 +150,20 @@ func cmdReplay(args []string) {
 			}
 			known := ""
 			if c.ExpK != nil {
-				if kd := gq.Compare(c.ExpK, act, true); len(kd) == 0 {
+				kd := gq.Compare(c.ExpK, act, true)
+				if len(kd) == 0 {
 					known = strings.Join(c.KDevs, "+")
 					if known == "" {
 						known = "K"
+					}
+				} else {
+					// neither what the specification prescribes nor what the known deviations make of it: say how it
+					// differs from the latter too (a request the deviations let through is then judged on its data)
+					for _, d := range kd {
+						rep.Mismatch(vh.Mismatch{
+							Case: map[string]interface{}{"fam": c.Fam, "request": c.Doc.Text(gq.Layouts[0]), "op": c.Op, "vars": c.Vars,
+								"faults": c.Faults, "strategy": s, "listmode": lm, "aspect": d.Aspect, "against": "the outcome under the known deviations " + strings.Join(c.KDevs, "+")},
+							What: d.Aspect + ": " + d.What})
 					}
 				}
 			}
